@@ -258,7 +258,9 @@ func (pm *pathManager) doReloadConf(newPaths map[string]*conf.Path) {
 			oldPathConf := pm.pathConfs[pa.confName]
 			if pathConfCanBeUpdated(oldPathConf, newPathConf) {
 				pa.confName = newPathConf.Name
-				go pa.reloadConfAndMatches(newPathConf, newMatches)
+				pa.reloadConfAsync(func() {
+					pa.reloadConfAndMatches(newPathConf, newMatches)
+				})
 				continue
 			}
 
@@ -275,7 +277,9 @@ func (pm *pathManager) doReloadConf(newPaths map[string]*conf.Path) {
 
 		// path configuration has changed but can be hot reloaded: reload it
 		if _, ok := confsToReload[newPathConf.Name]; ok {
-			go pa.reloadConf(newPathConf)
+			pa.reloadConfAsync(func() {
+				pa.reloadConf(newPathConf)
+			})
 		}
 	}
 
